@@ -16,12 +16,11 @@ Proof.
   apply (hop_delivers N N unit (fun p => p) (fun _ _ p => p) (fun _ _ b => Some b)); [reflexivity|discriminate|reflexivity].
 Qed.
 
-(* outcomes satisfying the hypotheses of success_iff_accepted_partial / meaning_commutes *)
+(* outcomes of every shape satisfy the only hypothesis of meaning_commutes (o <> Accept) *)
 Example hyp_outcomes :
-  ok_coded (StatusErr 8 None WNone) = false /\ StatusErr 8 None WNone <> Accept /\
-  ok_coded (CustomStatus None None WPermanent) = false /\ ok_coded PlainErr = false /\
-  ok_coded (CustomStatus (Some 0) None WNone) = true.
-Proof. repeat split; try reflexivity; discriminate. Qed.
+  StatusErr 8 None WNone <> Accept /\ CustomStatus None None WPermanent <> Accept /\ PlainErr <> Accept /\
+  CustomStatus (Some 0) None WNone <> Accept.
+Proof. repeat split; discriminate. Qed.
 
 (* the one place where the two specification tables differ, through the whole hop *)
 Example resource_exhausted_without_retry_info :
@@ -54,15 +53,18 @@ Example wrappers :
   get_status_from_error PlainErr = Some (14, None).
 Proof. vm_compute. repeat split. Qed.
 
-(* finding C15-OKSTATUS, on all three transports *)
-Example ok_status_witness :
-  let o := CustomStatus (Some 0) None WNone in
-  hop Grpc NoAuth 1 o = mkHop true Success None /\
-  hop HttpPb NoAuth 1 o = mkHop true Success None /\
-  hop HttpJson AuthOK 1 o = mkHop true Success None.
+(* a foreign error whose GRPCStatus() says OK is an error all the same (was finding C15-OKSTATUS before /repo
+   b16584117): reported like an error without a status, on all three transports, RetryInfo dropped *)
+Example ok_status_is_an_error :
+  let o := CustomStatus (Some 0) (Some 5000000000) WNone in
+  get_status_from_error o = Some (14, None) /\
+  get_status_from_error (CustomStatus (Some 0) None WPermanent) = Some (13, None) /\
+  hop Grpc NoAuth 1 o = mkHop true Retryable (Some 14) /\
+  hop HttpPb NoAuth 1 o = mkHop true Retryable (Some 14) /\
+  hop HttpJson AuthOK 1 (CustomStatus (Some 0) None WPermanent) = mkHop true Permanent (Some 2).
 Proof. vm_compute. repeat split. Qed.
 
-(* client errors: one request per class, hypotheses of client_error_status_partial satisfiable *)
+(* client errors: one request per class, hypothesis of client_error_status satisfiable *)
 Example client_error_examples :
   let o := Accept in
   recv_http (mkReq AuthFail EncGood true CtPb (Some 1%N)) o = (false, mkResp 401 None (Some 16)) /\
@@ -72,15 +74,14 @@ Example client_error_examples :
   recv_http (mkReq NoAuth EncGood true CtOther (Some 1%N)) o = (false, mkResp 415 None None) /\
   recv_http (mkReq NoAuth EncGood true CtPb None) o = (false, mkResp 400 None (Some 3)) /\
   recv_http (mkReq NoAuth EncBadLazy true CtJson (Some 1%N)) o = (false, mkResp 400 None (Some 3)) /\
-  client_error (mkReq NoAuth EncGood true CtPb None) = true /\
-  answered_by_fallback (mkReq NoAuth EncGood true CtPb None) = false.
+  client_error (mkReq NoAuth EncGood true CtPb None) = true.
 Proof. vm_compute. repeat split. Qed.
 
-(* finding C15-CLIENTERR-500: refused credentials / unsupported encoding with a non-OTLP Content-Type *)
-Example fallback_500_witness :
-  recv_http (mkReq AuthFail EncGood true CtOther (Some 1%N)) Accept = (false, mkResp 500 None (Some 13)) /\
-  recv_http (mkReq NoAuth EncUnsupported true CtOther None) Accept = (false, mkResp 500 None (Some 13)) /\
-  recv_http (mkReq AuthOK EncBadEager false CtOther (Some 0%N)) Accept = (false, mkResp 500 None (Some 13)).
+(* refused before the OTLP handler with a non-OTLP Content-Type: the asked-for 4xx (was 500 before /repo 158674155) *)
+Example fallback_encoding_keeps_status :
+  recv_http (mkReq AuthFail EncGood true CtOther (Some 1%N)) Accept = (false, mkResp 401 None (Some 16)) /\
+  recv_http (mkReq NoAuth EncUnsupported true CtOther None) Accept = (false, mkResp 400 None (Some 3)) /\
+  recv_http (mkReq AuthOK EncBadEager false CtOther (Some 0%N)) Accept = (false, mkResp 400 None (Some 3)).
 Proof. vm_compute. repeat split. Qed.
 
 (* finding C15-GRPC-MALFORMED-INTERNAL: the decode precedes the authenticator *)
@@ -126,6 +127,18 @@ Definition has_line (c : nat * (list Z * list Z)) (g : list (nat * (list Z * lis
 Example dump_lines :
   has_line (1%nat, ([429; 1; 1500000000], [429; 1; 1])) recvhttp_graph = true /\
   has_line (2%nat, ([0; 0], [405])) recvhttp_graph = true /\
-  has_line (3%nat, ([2; 401], [500; 13])) recvhttp_graph = true /\
+  has_line (3%nat, ([2; 401], [401; 16])) recvhttp_graph = true /\
   has_line (4%nat, ([0; -1; 400; 0; 0], [400; 0; 0; 3])) recvhttp_graph = true.
 Proof. vm_compute. repeat split. Qed.
+
+(* a history mixing transports, an unauthenticated send, an empty one and refusals *)
+Example history_instance :
+  run_history [(Grpc, NoAuth, 3%N, Accept); (HttpPb, AuthFail, 2%N, Accept); (HttpJson, AuthOK, 0%N, PlainErr);
+               (HttpPb, NoAuth, 1%N, PermanentErr); (Grpc, AuthOK, 5%N, StatusErr 8 (Some 1000000000) WNone)] 0
+  = ([0; 3; 4]%nat, [Success; Permanent; Success; Permanent; Throttle 1000000000]).
+Proof. vm_compute. reflexivity. Qed.
+
+Example well_formed_request_example :
+  client_error (mkReq AuthOK EncGood true CtJson (Some 4%N)) = false /\
+  recv_http (mkReq AuthOK EncGood true CtJson (Some 4%N)) PlainErr = (true, mkResp 503 None (Some 14)).
+Proof. vm_compute. split; reflexivity. Qed.
